@@ -499,9 +499,11 @@ def canon(v, depth=0):
     if v is None or t is bool or t is int or t is float or t is complex:
         return (t.__name__, repr(v))
     if t is str:
-        return ("str", v)
+        # a str value may embed the default repr of an object (e.g. `x ~ d.items` concatenates the text of a
+        # bound method): addresses are not part of the semantics
+        return ("str", norm_text(v))
     if t is Markup:
-        return ("Markup", str.__str__(v))
+        return ("Markup", norm_text(str.__str__(v)))
     if depth > 6:
         return (t.__name__, "...")
     if t is list or t is tuple:
